@@ -246,4 +246,83 @@ theorem uv_node_near_hemi {r : ℝ} (hr : 0 < r) (h : Hemisphere) {off : ℝ} (h
     linarith
   nlinarith
 
+/-- for `r ≥ 0.002°` the polar step of every hemisphere exceeds the `np.isclose` windows around 0 and π -/
+theorem stepPolH_gt {r : ℝ} (hr : 1 / 500 ≤ r) (h : Hemisphere) :
+    1 / 10 ^ 8 + 1 / 10 ^ 5 * Real.pi < stepPolH h r := by
+  have hr0 : 0 < r := by linarith
+  have hR : (90 : ℝ) ≤ ((hrange h : ℕ) : ℝ) := by cases h <;> simp [hrange, Hemisphere.polarDeg] <;> norm_num
+  have hRpos : (0 : ℝ) < ((hrange h : ℕ) : ℝ) := by linarith
+  have hM : ((nPolH h r : ℕ) : ℝ) < 500 * ((hrange h : ℕ) : ℝ) + 1 := by
+    rw [nPolH_cast hr0]
+    have h1 : (⌈((hrange h : ℕ) : ℝ) / r⌉ : ℝ) < ((hrange h : ℕ) : ℝ) / r + 1 := Int.ceil_lt_add_one _
+    have h2 : ((hrange h : ℕ) : ℝ) / r ≤ 500 * ((hrange h : ℕ) : ℝ) := by
+      rw [div_le_iff₀ hr0]; nlinarith
+    linarith
+  have hMpos : (0 : ℝ) < (nPolH h r : ℝ) := by exact_mod_cast nPolH_pos hr0 h
+  unfold stepPolH
+  rw [lt_div_iff₀ hMpos]
+  have hpi2 := Real.two_le_pi
+  have hpi4 := Real.pi_le_four
+  have hc : (0 : ℝ) < 1 / 10 ^ 8 + 1 / 10 ^ 5 * Real.pi := by positivity
+  have h3 := mul_lt_mul_of_pos_left hM hc
+  -- (1e-8 + 1e-5 π)(500 R + 1) < R π / 180  for R ≥ 90
+  nlinarith
+
+/-- POLE DUPLICATES LOSE NOTHING among the lines used for the covering (offset 0, `r ≥ 0.002°`, any hemisphere) -/
+theorem uv_kept_node_hemi {r : ℝ} (hr : 1 / 500 ≤ r) (h : Hemisphere) {i j : ℕ} (hi : i < nPolH h r) (hj : j < nAz r) :
+    ∃ j', j' < nAz r ∧ sph (polLineH h r 0 i) (azLineO r 0 j') = sph (polLineH h r 0 i) (azLineO r 0 j)
+      ∧ poleDuplicate (azLineO r 0 j', polLineH h r 0 i) = false := by
+  have hr0 : 0 < r := by linarith
+  by_cases hd : poleDuplicate (azLineO r 0 j, polLineH h r 0 i) = true
+  · have haz0 : azLineO r 0 0 = 0 := by simp [azLineO]
+    have hkeep0 : poleDuplicate (azLineO r 0 0, polLineH h r 0 i) = false := by
+      rw [Bool.eq_false_iff, Ne, poleDuplicate_real, haz0]
+      intro h; exact lt_irrefl _ h.1
+    rw [poleDuplicate_real] at hd
+    have hstep := stepPolH_gt hr h
+    have hsp0 := stepPolH_pos hr0 h
+    have htot := stepPolH_total hr0 h
+    have hpi := Real.pi_pos
+    have hline : polLineH h r 0 i = ((h.polarDeg.1 : ℕ) : ℝ) * (Real.pi / 180) + (i : ℝ) * stepPolH h r := by
+      unfold polLineH; ring
+    have hpmin0 : 0 ≤ ((h.polarDeg.1 : ℕ) : ℝ) * (Real.pi / 180) := by positivity
+    have hi' : (i : ℝ) + 1 ≤ (nPolH h r : ℝ) := by exact_mod_cast hi
+    -- the line is at least one step below `polar_max ≤ π`
+    have hmax : ((h.polarDeg.1 : ℕ) : ℝ) * (Real.pi / 180) + ((hrange h : ℕ) : ℝ) * (Real.pi / 180) ≤ Real.pi := by
+      rw [← add_mul, ← polarDeg_max h]
+      have : ((h.polarDeg.2 : ℕ) : ℝ) ≤ 180 := by cases h <;> simp [Hemisphere.polarDeg] <;> norm_num
+      calc ((h.polarDeg.2 : ℕ) : ℝ) * (Real.pi / 180) ≤ 180 * (Real.pi / 180) :=
+            mul_le_mul_of_nonneg_right this (by positivity)
+        _ = Real.pi := by ring
+    have hbelow : polLineH h r 0 i ≤ Real.pi - stepPolH h r := by
+      rw [hline]; nlinarith
+    have hnn : 0 ≤ polLineH h r 0 i := by rw [hline]; positivity
+    refine ⟨0, nAz_pos hr0, ?_, hkeep0⟩
+    rcases hd.2 with h0 | hπ
+    · -- close to 0: the line is the pole itself
+      rw [sub_zero, abs_of_nonneg hnn, abs_zero, mul_zero, add_zero] at h0
+      have hi0 : i = 0 := by
+        by_contra hne
+        have h1 : (1 : ℝ) ≤ (i : ℝ) := by exact_mod_cast Nat.one_le_iff_ne_zero.mpr hne
+        have : stepPolH h r ≤ polLineH h r 0 i := by rw [hline]; nlinarith
+        have h5 : (0 : ℝ) ≤ 1 / 10 ^ 5 * Real.pi := by positivity
+        linarith
+      subst hi0
+      have hp0 : ((h.polarDeg.1 : ℕ) : ℝ) * (Real.pi / 180) = 0 := by
+        rw [hline] at h0
+        simp only [Nat.cast_zero, zero_mul, add_zero] at h0
+        cases h
+        · simp [Hemisphere.polarDeg]
+        · exfalso
+          simp only [Hemisphere.polarDeg] at h0
+          have : (1 : ℝ) ≤ ((90 : ℕ) : ℝ) * (Real.pi / 180) := by push_cast; nlinarith [Real.two_le_pi]
+          linarith
+        · simp [Hemisphere.polarDeg]
+      have : polLineH h r 0 0 = 0 := by rw [hline, hp0]; simp
+      rw [this]; exact sph_zero _ _
+    · exfalso
+      rw [abs_sub_comm, abs_of_nonneg (by linarith), abs_of_pos hpi] at hπ
+      linarith
+  · exact ⟨j, hj, rfl, by simpa using hd⟩
+
 end Orix.SamplingLemmas
